@@ -237,6 +237,20 @@ def gen_cases(rng, tier):
     # the stream format's panic boundary (max_id + 2 overflows): cheap only for the stream format
     cases.append((L('save', 'stream', DOC(b'1.5', b'\xbb\xad', [], [((3, 0), I(7))], 4294967294)), {'kind': 'save-edge', 'nontrivial': True}))
     cases.append((L('save', 'table', DOC(b'1.5', b'\xbb\xad', [], [((3, 0), I(7))], 4294967295)), {'kind': 'save-edge', 'nontrivial': True}))
+    # container nesting around the reader's limit (100 levels): 101 and deeper is the known finding C01-deep-nesting
+    for depth in (99, 100, 101, 102, 130) if tier == 'quick' else (1, 50, 99, 100, 101, 102, 103, 130, 200, 400):
+        for kind in ('a', 'd', 'st', 'tr'):
+            o = I(7)
+            for _ in range(depth - (1 if kind in ('st', 'tr') else 0)):
+                o = A([o]) if kind in ('a', 'st') or rng.random() < 0.3 else D([(b'K', o)])
+            if kind == 'st':
+                obj, tr = ST([(b'Length', I(1)), (b'K', o)], b'x'), []
+            elif kind == 'tr':
+                obj, tr = NULL, [(b'K', o)]
+            else:
+                obj, tr = o, []
+            cases.append((L('rt', rng.choice(['table', 'stream']), DOC(b'1.5', b'\xbb\xad\xc0\xde', tr, [((1, 0), obj)], 1)),
+                          {'kind': 'rt-nesting-%d' % depth, 'nontrivial': True}))
     # damaged files: bytes saved by the implementation itself, then mutated
     impl, log = vlib.build_harness('c01')
     if impl is not None:
@@ -291,6 +305,37 @@ def sx_print(x):
     return x if isinstance(x, str) else '(' + ' '.join(sx_print(y) for y in x) + ')'
 
 
+def sx_nest(o):
+    """container nesting depth of an object term (a stream dictionary counts as one level)"""
+    if isinstance(o, str) or not o:
+        return 0
+    if o[0] == 'a':
+        return 1 + max([sx_nest(x) for x in o[1:]] or [0])
+    if o[0] == 'd':
+        return 1 + max([sx_nest(kv[1]) for kv in o[1:] if len(kv) == 2] or [0])
+    if o[0] == 'st':
+        return sx_nest(o[1])
+    return 0
+
+
+MAX_DEPTH = 100   # reader::MAX_BRACKET; the Coq side reads it through Gen/Lex.v
+
+
+def classify(line, tags, model_out, impl_out, verdict):
+    """known-finding class, decided on the INPUT: C01-deep-nesting = some object or the trailer nests containers deeper than
+    MAX_BRACKET (mirrors KnownDeep in coq/Spec/SaveSpec.v)"""
+    try:
+        case = sx_parse(line)
+        if case[0] not in ('save', 'rt') or case[2][0] != 'doc':
+            return None
+        doc = case[2]
+        if sx_nest(doc[3]) > MAX_DEPTH or any(sx_nest(io[1]) > MAX_DEPTH for io in doc[4][1:]):
+            return 'C01-deep-nesting'
+    except Exception:
+        return None
+    return None
+
+
 def shrink(line, fails):
     """drop objects, then trailer entries, then object sub-terms, while the case keeps failing"""
     try:
@@ -323,6 +368,7 @@ SPEC = {
     'gen_cases': gen_cases,
     'compare': compare,
     'shrink': shrink,
+    'classify': classify,
     'rule': 'generated documents (0-9 objects of all ten kinds nested to depth 3, streams with tricky bodies, adversarial bytes in names/'
             'strings/keys, sparse object numbers, generations up to 65535, f32 reals printed by Rust itself, version/binary-mark variants, '
             'trailers with and without bookkeeping keys; 20% outside the property domain) saved in both cross-reference formats: model save '
@@ -340,6 +386,9 @@ MANIFEST = {
 
 def seq_pass(ctx):
     """same cases through a harness built with --no-default-features (sequential reader): outputs and verdicts must be identical"""
+    if os.environ.get('C01_SKIP_SEQ'):
+        ctx.notes.append('no-default-features pass skipped (C01_SKIP_SEQ set: hand-made mutation run)')
+        return
     cases = gen_cases(ctx.rng, ctx.tier)
     lines = [c[0] for c in cases]
     full, _ = vlib.build_harness('c01')
